@@ -24,6 +24,7 @@ type lckWorld struct {
 	flagIdx  map[int]string // field index -> name, for *bool fields
 	funcs    []*ssa.Function
 	entry    map[*ssa.Function]bool // lock must be held on entry (callee summary)
+	unlocker map[*ssa.Function]bool // function literal used only as `defer func() { ...Unlock() }()`: releases the mutex on all its paths
 	accesses int
 }
 
@@ -122,9 +123,9 @@ func (lw *lckWorld) lockCall(c *ssa.CallCommon) string {
 }
 
 type lockState struct {
-	must, may  bool // lock held on all / some paths
-	deferUnl   bool // a deferred Unlock is registered on all paths
-	reached    bool
+	must, may bool // lock held on all / some paths
+	deferUnl  bool // a deferred Unlock is registered on all paths
+	reached   bool
 }
 
 func meet(a, b lockState) lockState {
@@ -159,7 +160,7 @@ func (lw *lckWorld) flow(fn *ssa.Function, entryHeld bool, visit func(in ssa.Ins
 					s.may = true
 				}
 			case *ssa.Defer:
-				if lw.lockCall(&x.Call) == "Unlock" {
+				if lw.lockCall(&x.Call) == "Unlock" || lw.unlocker[deferredLit(x)] {
 					s.deferUnl = true
 				}
 			}
@@ -288,6 +289,46 @@ func (lw *lckWorld) guardedBy() {
 			break
 		}
 	}
+	// `defer func() { ...; fmts.lock.Unlock() }()`: a function literal whose only use is that defer and which,
+	// entered with the mutex held, releases it on every path and never locks, is a deferred Unlock; it is
+	// analysed with the mutex held on entry (it runs at the exits of its parent, where LCK-2 requires exactly that).
+	lw.unlocker = map[*ssa.Function]bool{}
+	for _, f := range lw.funcs {
+		for _, b := range f.Blocks {
+			for _, ins := range b.Instrs {
+				d, ok := ins.(*ssa.Defer)
+				if !ok {
+					continue
+				}
+				lit := deferredLit(d)
+				if lit == nil || !touch[lit] {
+					continue
+				}
+				if mc, ok := d.Call.Value.(*ssa.MakeClosure); ok && (mc.Referrers() == nil || len(*mc.Referrers()) != 1) {
+					continue
+				}
+				releases, locks := true, false
+				nret := 0
+				lw.flow(lit, true, func(in ssa.Instruction, s lockState) {
+					switch x := in.(type) {
+					case *ssa.Return:
+						nret++
+						if s.may {
+							releases = false
+						}
+					case *ssa.Call:
+						if k := lw.lockCall(&x.Call); k == "Lock" || k == "TryLock" {
+							locks = true
+						}
+					}
+				})
+				if releases && !locks && nret > 0 {
+					lw.unlocker[lit] = true
+					lw.entry[lit] = true
+				}
+			}
+		}
+	}
 	var fs []*ssa.Function
 	for f := range touch {
 		fs = append(fs, f)
@@ -385,7 +426,7 @@ func (lw *lckWorld) guardedBy() {
 					}
 				}
 			case *ssa.Defer:
-				if lw.lockCall(&x.Call) == "Unlock" {
+				if lw.lockCall(&x.Call) == "Unlock" || lw.unlocker[deferredLit(x)] {
 					if !s.must {
 						r.bad("LCK-2", name, "defer Unlock", pos, "deferred Unlock registered on a path where the mutex is not held")
 					} else {
@@ -405,6 +446,24 @@ func (lw *lckWorld) guardedBy() {
 			}
 		})
 	}
+}
+
+// deferredLit: the function literal called by `defer func() {...}()`, or nil.
+func deferredLit(d *ssa.Defer) *ssa.Function {
+	if len(d.Call.Args) != 0 || d.Call.IsInvoke() {
+		return nil
+	}
+	switch v := d.Call.Value.(type) {
+	case *ssa.MakeClosure:
+		if fn, ok := v.Fn.(*ssa.Function); ok && fn.Parent() != nil {
+			return fn
+		}
+	case *ssa.Function:
+		if v.Parent() != nil {
+			return v
+		}
+	}
+	return nil
 }
 
 func isExecRun(c *ssa.CallCommon) bool {
